@@ -14,17 +14,19 @@ RULE = (
     "'%41') x 4 placements; GTF dictionaries skip values containing ; \" , or control characters. A Feature with that dialect is printed "
     "and re-parsed with it: printing twice gives the same text and hash, printing does not modify the attributes, the text is one line "
     "with 9 + extras columns, columns and the attribute mapping are unchanged; for placement 0 the round trip is repeated after the "
-    "caller edited its dialect dictionary. Part 'total' (shards by length and first two symbols): every string of length 0..6 (quick) / "
-    "0..7 (thorough) over the 9-symbol structural alphabet as the attribute column, parsed with inference and three supplied dialects: "
-    "must not raise and must yield lists of strings. Part 'long': 15 long (30-78 character) strings of word runs and repeated "
-    "structural characters x the same 4 dialect options, each under a 20 s termination guard. Non-trivial = the value contains a "
-    "character needing escape, a blank, quote, '+' or non-ASCII (enc); the string has >= 2 structural characters (total); every long "
-    "execution."
+    "caller edited its dialect dictionary, and (GFF3 dictionaries) the global ignore_url_escape_characters switch was on for an earlier "
+    "print and is off again. Part 'batch' (72 shards x input form path / gzip / from_string, both tiers): all admissible values of "
+    "length 1..2 (up to 380) printed under one dictionary into ONE text and read back by DataIterator: as many features as lines, "
+    "mappings unchanged. Part 'total' (shards by length and first two symbols): every string of length 0..6 (quick) / 0..7 (thorough) "
+    "over the 9-symbol structural alphabet as the attribute column, parsed with inference and three supplied dialects: must not raise "
+    "and must yield lists of strings. Part 'long': 15 long (30-78 character) strings x the same 4 dialect options, each under a 20 s "
+    "termination guard. Non-trivial = the value contains a character needing escape, a blank, quote, '+' or non-ASCII (enc); the string "
+    "has >= 2 structural characters (total); every batch and long execution."
 )
 ASSUMPTIONS = [
     "exhaustive for the stated alphabets and lengths only: 'arbitrary Unicode' and 'randomly beyond' are not sampled (small-scope assumption)",
     "GTF-style dictionaries are exercised only with values free of ; \" , and control characters, as the statement says",
-    "'single line' means no LF/CR in the printed text (files are split on those)",
+    "'single line' means no LF/CR in the printed text (files are split on those); part 'batch' relies on it: one printed feature per line",
 ]
 
 ALPHA = ["a", " ", "\t", "\n", "\r", "%", ";", "=", "&", ",", '"', "\x00", "\x1f", "\x7f", "é", " ", "%41", "+", "\x85"]
